@@ -348,8 +348,8 @@ def p5_empty_tours_removed_last(F, r):
 
 
 def q1_no_self_comparison(F, r):
-    from .common import self_comparison_rule
-    n = self_comparison_rule(F, r, ("vrp_pragmatic::format", "vrp_core::construction::heuristics", "vrp_core::construction::probing", "vrp_core::construction::clustering",
+    from .common import lints_rule
+    n = lints_rule(F, r, ("vrp_pragmatic::format", "vrp_core::construction::heuristics", "vrp_core::construction::probing", "vrp_core::construction::clustering",
                                     "vrp_core::solver::processing", "vrp_core::models::solution", "vrp_core::models::problem"),
                              "job/vehicle matching or bookkeeping guard")
     if n < 300:
